@@ -304,8 +304,19 @@ func ConvertToLua(L *lua.LState, val resp.Value) lua.LValue {
 	return lua.LString("ERR: unknown RESP type: " + val.Type().String())
 }
 
+// luaMaxResultDepth bounds the nesting of tables in a script result. A table
+// that contains itself (`return _G`) or is nested without end would otherwise
+// be followed until the stack or the memory of the process is used up.
+const luaMaxResultDepth = 100
+
+const luaTooDeep = "Unsupported lua type: table nested too deeply"
+
 // ConvertToRESP convert lua LValue to RESP value
 func ConvertToRESP(val lua.LValue) resp.Value {
+	return convertToRESP(val, 0)
+}
+
+func convertToRESP(val lua.LValue, depth int) resp.Value {
 	switch val.Type() {
 	case lua.LTNil:
 		return resp.NullValue()
@@ -323,6 +334,9 @@ func ConvertToRESP(val lua.LValue) resp.Value {
 	case lua.LTString:
 		return resp.StringValue(val.String())
 	case lua.LTTable:
+		if depth >= luaMaxResultDepth {
+			return resp.ErrorValue(errors.New(luaTooDeep))
+		}
 		var values []resp.Value
 		var specialValues []resp.Value
 		var cb func(lk lua.LValue, lv lua.LValue)
@@ -330,7 +344,7 @@ func ConvertToRESP(val lua.LValue) resp.Value {
 
 		if tbl.Len() != 0 { // list
 			cb = func(lk lua.LValue, lv lua.LValue) {
-				values = append(values, ConvertToRESP(lv))
+				values = append(values, convertToRESP(lv, depth+1))
 			}
 		} else { // map
 			cb = func(lk lua.LValue, lv lua.LValue) {
@@ -344,7 +358,7 @@ func ConvertToRESP(val lua.LValue) resp.Value {
 					}
 				}
 				values = append(values, resp.ArrayValue(
-					[]resp.Value{ConvertToRESP(lk), ConvertToRESP(lv)}))
+					[]resp.Value{convertToRESP(lk, depth+1), convertToRESP(lv, depth+1)}))
 			}
 		}
 		tbl.ForEach(cb)
@@ -358,6 +372,10 @@ func ConvertToRESP(val lua.LValue) resp.Value {
 
 // ConvertToJSON converts lua LValue to JSON string
 func ConvertToJSON(val lua.LValue) string {
+	return convertToJSON(val, 0)
+}
+
+func convertToJSON(val lua.LValue, depth int) string {
 	switch val.Type() {
 	case lua.LTNil:
 		return "null"
@@ -379,6 +397,9 @@ func ConvertToJSON(val lua.LValue) string {
 			return string(b)
 		}
 	case lua.LTTable:
+		if depth >= luaMaxResultDepth {
+			return jsonString(luaTooDeep)
+		}
 		var values []string
 		var cb func(lk lua.LValue, lv lua.LValue)
 		var start, end string
@@ -388,18 +409,18 @@ func ConvertToJSON(val lua.LValue) string {
 			start = `[`
 			end = `]`
 			cb = func(lk lua.LValue, lv lua.LValue) {
-				values = append(values, ConvertToJSON(lv))
+				values = append(values, convertToJSON(lv, depth+1))
 			}
 		} else { // map
 			start = `{`
 			end = `}`
 			cb = func(lk lua.LValue, lv lua.LValue) {
-				key := ConvertToJSON(lk)
+				key := convertToJSON(lk, depth+1)
 				if lk.Type() != lua.LTString {
 					// JSON member names are strings
 					key = `"` + lk.String() + `"`
 				}
-				values = append(values, key+`:`+ConvertToJSON(lv))
+				values = append(values, key+`:`+convertToJSON(lv, depth+1))
 			}
 		}
 		tbl.ForEach(cb)
